@@ -28,6 +28,9 @@ RULE = ("two searches. crash: case = (functional, function kind, debug mode off 
         "deduplicated on (labels on the reference stack, lock depth, debug stack) to depth 6 (quick) / 8 (thorough); "
         "every sequence is replayed from a fresh object and ends with a full unwind. distinct = distinct "
         "(N per phase, outcome table) observations; a crash case is trivial when the phase makes no call (N = 0)")
+RULE_ADDED = ('Added later: every crash point also with a fault that does not derive from Exception (KeyboardInterr'
+              'upt-like); alias search = every set partition of up to 5 / 6 declared names for EditableModule and L'
+              "inearOperator; push label 'first'.")
 ASSUMPTIONS = [
     "one fault per execution in the crash search; the fault is raised at the start of the user's function / "
     "operator product; scripted functions are not enumerated (no object state, no place to inject a fault)",
